@@ -136,3 +136,92 @@ def run(ctx, hist):
             out.append((line, vals, il[k].split(";") if k < len(il) else ["missing"], ml[k].split(";") if k < len(ml) else (None if not drv else ["missing"])))
         os.unlink(files[i])
     return out, errs
+
+
+LAYOUT_RULE = (" Layout probe (deterministic, one child process per item type): item types unit, u8, u16, u32, u64, usize, u128, (u128,u8) and "
+               "#[repr(align(16/32/64))] structs x 1..5 matcher columns (0 is rejected by the constructor) x capacities 0,1,33,100 x push / one extend / "
+               "mixed pushes and batches: 100 items across two bucket boundaries, then every index is read back: index returned by push, value, every column "
+               "text (value dependent, non-ASCII), `&T` and the column slice aligned for their types, all value / column storage pairwise disjoint, count, "
+               "snapshot; a panic or abort of the child (the debug profile aborts on a misaligned dereference) is a failure.")
+LEAK_RULE = (" Leak probe (deterministic, single threaded, counting #[global_allocator] in the harness binary): item types without drop glue (u32, &'static str, "
+             "(u8,u8), u128) and with (String, Box<u64>) x 1,3 columns x capacities 0,100 x 0 / 1 / 70 pushed / 70 extended / 1500 mixed items whose columns own heap "
+             "blocks (non-ASCII text): after the vector is dropped the live bytes and the live allocation count must equal the values before it was created, exactly "
+             "(one warm-up round per type). Public API variant: Nucleo<u32> (one pool thread), 300 items, tick, [restart, 150 items, tick], drop of every handle: "
+             "the number of live blocks of the column payloads' shape (1332 bytes, align 4; nothing else allocates that) must return to its starting value.")
+
+
+def stderr_gist(err):
+    """the panic message(s) (without the backtrace) and the last line of a dead child's stderr"""
+    ls = [x.strip() for x in err.strip().splitlines()]
+    keep = []
+    for i, l in enumerate(ls):
+        if "panicked at" in l:
+            keep.append(l)
+            if i + 1 < len(ls) and not ls[i + 1].startswith("stack backtrace"):
+                keep.append(ls[i + 1])
+    if ls and (not keep or ls[-1] != keep[-1]):
+        keep.append(ls[-1])
+    return " | ".join(keep)[-700:]
+
+
+def layout_probe(ctx):
+    """C08 layout probe: returns (evaluations, failures)"""
+    hn = ctx["hn"]
+    rc, out, err, _ = vlib.run([hn, "layout-types"])
+    types = out.split()
+    fails = []
+    if rc != 0 or not types:
+        return 0, [{"class": "crash", "what": "hn layout-types failed: " + err[-300:], "case": "layout"}]
+    rs = vlib.parallel([[hn, "layout", t] for t in types], tag="lay", timeout=300)
+    n = 0
+    for t, (rc, out, err) in zip(types, rs):
+        cur = None
+        for l in out.splitlines():
+            if l.startswith("B "):
+                cur = l[2:]
+            elif l.startswith("E "):
+                n += 1
+                if l != "E ok":
+                    p = l.split(" ", 3)
+                    fails.append({"class": p[2], "what": "%s: %s" % (cur, p[3] if len(p) > 3 else ""), "case": cur})
+                cur = None
+        if rc != 0 or cur is not None:
+            n += 1
+            tail = stderr_gist(err)
+            fails.append({"class": "abort", "what": "%s: the probe process died (exit status %s) while adding / reading back items of this type: %s" % (cur or ("layout " + t), rc, tail),
+                          "case": cur or ("layout " + t)})
+    return n, fails
+
+
+def leak_probe(ctx):
+    """C11 leak probe: returns (evaluations, failures)"""
+    rc, out, err, _ = vlib.run([ctx["hn"], "leak"], timeout=300)
+    fails = []
+    n = 0
+    for l in out.splitlines():
+        if l.startswith("L ok "):
+            n += 1
+        elif l.startswith("L fail "):
+            n += 1
+            p = l.split(" ", 3)
+            case, _, what = p[3].partition(" :: ")
+            fails.append({"class": p[2], "what": "%s: %s" % (case, what), "case": case})
+    if rc != 0 or n == 0:
+        tail = stderr_gist(err)
+        fails.append({"class": "crash", "what": "the leak probe process died (exit status %s) after %d cases: %s" % (rc, n, tail), "case": "leak"})
+    return n, fails
+
+
+def replay_probe(case):
+    """re-run a probe case recorded in a replay file; True if `case` was a probe case"""
+    if not (case.startswith("layout") or case.startswith("leak")):
+        return False
+    hn = vlib.build_harness("hn")
+    cmd = [hn] + case.split(" ") if case.startswith("layout") else [hn, "leak"]
+    rc, out, err, _ = vlib.run(cmd)
+    lines = [l for l in out.splitlines() if not l.endswith(" ok") and not l.startswith("L ok")]
+    print("$ " + " ".join(cmd))
+    print("\n".join(lines[-20:]))
+    if rc != 0:
+        print("exit status %s: %s" % (rc, err.strip()[-800:]))
+    return True
